@@ -212,6 +212,14 @@ class Prop(object):
             if not ok:
                 stage, detail = 'ref-verify', 'independent RFC 4880 verifier rejects it: ' + why
         if stage is None:
+            # the signature names its maker: issuer key id (16) and issuer fingerprint (33), wherever they stand, are those of the key that verifies it
+            want_fpr, want_kid = rkeys.fingerprint(o['ref_key']), rkeys.keyid(o['ref_key'])
+            for sp in ps['hashed_sp'] + ps['unhashed_sp']:
+                if sp['type'] == 16 and bytes(sp['body']) != want_kid:
+                    stage, detail = 'issuer', 'issuer key id subpacket %s, the signing key is %s' % (bytes(sp['body']).hex(), want_kid.hex())
+                if sp['type'] == 33 and bytes(sp['body'])[1:] != want_fpr:
+                    stage, detail = 'issuer', 'issuer fingerprint subpacket %s, the signing key is %s' % (bytes(sp['body'])[1:].hex(), want_fpr.hex())
+        if stage is None:
             created = _sp(ps, 2)
             # (the embedded primary-key binding is made inside bind() and takes no caller-supplied time)
             if not sig.embedded and (len(created) != 1 or int.from_bytes(created[0]['body'], 'big') != S.SIG_T):
